@@ -56,7 +56,7 @@ MANIFEST = dict(
          "classic) from the Flocq-based definition of num_display in the shared number-formatting model. Model/PreludeLists.v is a HAND model of "
          "prelude.scm:147-258 validated by the correspondence and the reference oracle; about it: list, length, cadr, member, assoc (first "
          "tail / first pair whose car is equal? to the key, or #f), memv/memq/assv/assq (against the machine's own eqv? decision) have "
-         "theorems; map for-each caar cdar cddr have none. equal_spec assumes "
+         "theorems, as have caar cdar cddr and map / for-each for any number of lists (the calls of the procedure argument happen row by row in order and stop at the shortest list; map returns a fresh proper list of the results; for-each returns void), under an explicit hypothesis on the procedure argument. equal_spec assumes "
          "interned symbols (C18). eq?/eqv? on distinct pairs with identical field cells / on equal strings are pinned to "
          "#t by the suite and not claimed. Circular data (length, equal?, display, error rendering) is C06's.",
     technique="Rocq/Coq proof (refinement to an abstract store, invariants, induction over finite chains) + "
